@@ -555,7 +555,7 @@ def clause_e(c: Check):
 def clause_f(c: Check):
     ix = c.ix
     g = ix.func('exactly_lib.test_suite.instruction_set.utils:FileNamesResolverForGlobPattern.resolve')
-    rets = [n.value for n in walk_own(g.node) if isinstance(n, ast.Return)]
+    rets = util.returned_values(g)
     ok = bool(rets)
     for r in rets:
         d = ix.callee(g.module, g, r) if isinstance(r, ast.Call) else None
